@@ -156,6 +156,8 @@ inductive StageFn
   | chanAdd (k l : Nat)       -- "red+green"
   | gray                      -- "gray" (default): cv2 RGB → gray, 0.299 R + 0.587 G + 0.114 B
   | negKey                    -- "negative-key": 1 - min(1 - c) over the channels = the largest channel
+  /-- "hsv": the value channel where hue and saturation (skimage `rgb2hsv`) lie strictly inside the user's windows, else 0 -/
+  | hsv (hueLo hueHi satLo satHi : Rat)
   | affine (a b : Rat)        -- LinearModel(scaling, offset) / ScalingModel
   | clip (lo : Rat) (hi : Option Rat)  -- ClipModel
   deriving Repr
@@ -163,6 +165,25 @@ inductive StageFn
 /-- the documented gray value of an RGB pixel (ITU-R 601 weights, channel order R, G, B) -/
 def grayOf (p : Px) : Rat :=
   (299 : Rat) / 1000 * listGetD p 0 0 + (587 : Rat) / 1000 * listGetD p 1 0 + (114 : Rat) / 1000 * listGetD p 2 0
+
+/-- `skimage.color.rgb2hsv` of one non-negative RGB pixel: (hue in [0, 1), saturation, value) -/
+def hsvOf (p : Px) : Rat × Rat × Rat :=
+  let r := listGetD p 0 0
+  let g := listGetD p 1 0
+  let b := listGetD p 2 0
+  let v := if r ≤ g then (if g ≤ b then b else g) else (if r ≤ b then b else r)
+  let mn := if r ≤ g then (if r ≤ b then r else b) else (if g ≤ b then g else b)
+  let delta := v - mn
+  let s := if delta = 0 then 0 else delta / v
+  -- the assignments "red is max", "green is max", "blue is max" are made in this order: the last one wins
+  let h0 := if b = v then 4 + (r - g) / delta else if g = v then 2 + (b - r) / delta else (g - b) / delta
+  let h6 := h0 / 6
+  let h := if delta = 0 then 0 else if h6 < 0 then h6 + 1 else h6
+  (h, s, v)
+
+def hsvReduce (hueLo hueHi satLo satHi : Rat) (p : Px) : Rat :=
+  let x := hsvOf p
+  if hueLo < x.1 ∧ x.1 < hueHi ∧ satLo < x.2.1 ∧ x.2.1 < satHi then x.2.2 else 0
 
 def clipR (lo : Rat) (hi : Option Rat) (x : Rat) : Rat :=
   let y := if x ≤ lo then lo else x
@@ -173,6 +194,7 @@ def StageFn.eval : StageFn → Arr → Arr
   | .chanAdd k l, a => { scalar := true, px := a.px.map fun p => [listGetD p k 0 + listGetD p l 0] }
   | .gray, a => { scalar := true, px := a.px.map fun p => [grayOf p] }
   | .negKey, a => { scalar := true, px := a.px.map fun p => [1 - (p.map (1 - ·)).foldl (fun m x => if x ≤ m then x else m) ((1 - p.headD 0))] }
+  | .hsv a1 a2 a3 a4, a => { scalar := true, px := a.px.map fun p => [hsvReduce a1 a2 a3 a4 p] }
   | .affine s o, a => { a with px := a.px.map fun p => p.map fun x => s * x + o }
   | .clip lo hi, a => { a with px := a.px.map fun p => p.map (clipR lo hi) }
 
